@@ -178,8 +178,10 @@ func OpenBucket(urlStr string, bucketName string, mode OpenMode) (b *Bucket, err
 	}
 	bucket.expManager = newExpirationManager(bucket.doExpiration)
 	defer func() {
-		if err != nil && existedBefore {
-			// Failing to open an existing bucket (busy, I/O error...) must not destroy it: just let go.
+		if err != nil && !inMemory && (existedBefore || mode != CreateNew) {
+			// Failing to open an existing bucket (busy, I/O error...) must not destroy it: just let go. The same
+			// goes for CreateOrOpen of a bucket that does not exist yet: another opener may be creating it
+			// at this very moment (only CreateNew, whose Mkdir succeeded, knows the directory is its own).
 			bucket.expManager.stop()
 			bucket.mutex.Lock()
 			bucket._closeSqliteDB()
@@ -197,7 +199,11 @@ func OpenBucket(urlStr string, bucketName string, mode OpenMode) (b *Bucket, err
 	}
 	if vers == 0 {
 		if err = bucket.initializeSchema(bucketName); err != nil {
-			return nil, err
+			// Another opener may have created the schema between the check above and now:
+			if err2 := db.QueryRow(`PRAGMA user_version`).Scan(&vers); err2 != nil || vers == 0 {
+				return nil, err
+			}
+			err = nil
 		}
 	}
 	err = bucket.setName(bucketName)
